@@ -171,7 +171,7 @@ theorem for_var_named_forloop (P : Prims) (fs : FS) (env : Env) :
     [.loop 1 false nmForloop (.range (.lit (.int .int 1)) (.lit (.int .int 1))) {} [.obj 1 (.var nmForloop)] []] env = _
   simp [runRoot, frender, renderRoot, renderList, renderNode, renderBlockBody, loopRun, loopDispatch, loopIterate, iterateM, tablerowCols,
     intModifier, restoreLoopVars, selectItems, loopItems, rangeItems, wrapAt, wrapFailAt, M.mapFail, M.bind, M.pure, M.getEnv, M.ofRes,
-    M.setVar, M.getVar, writeAllM, flushM, Prog.bind, Prog.mapFail, Prog.runPure, bind, pure, mkCtx, evaluate, eval, GoVal.intOf,
+    M.setVar, M.getVar, writeAllM, writeVerbatimM, flushM, Prog.bind, Prog.mapFail, Prog.runPure, bind, pure, mkCtx, evaluate, eval, GoVal.intOf,
     Env.get_set_same, GoVal.unwrap, GoVal.isNil, GoVal.toLiquid, intOut, forloopRec, Status.wrap, statusToProg, Res.bind, List.range,
     List.range.loop]
 
